@@ -189,7 +189,8 @@ pub fn run_job(job: &Job, timeout: Duration) -> Ran {
         // machine); wall time only backs it up at 10x.
         let pid = wk.child.id();
         let cpu0 = cpu_seconds(pid);
-        let deadline = std::time::Instant::now() + timeout * 10;
+        let started = std::time::Instant::now();
+        let deadline = started + timeout * 10;
         let mut dead = sent.is_err();
         while !dead {
             match wk.rx.recv_timeout(Duration::from_millis(500)) {
@@ -207,8 +208,11 @@ pub fn run_job(job: &Job, timeout: Duration) -> Ran {
                     }
                 }
                 Err(RecvTimeoutError::Timeout) => {
+                    // both clocks must agree (a one-thread job cannot use more CPU than wall time;
+                    // this also guards against a misread of /proc)
                     let used = cpu_seconds(pid) - cpu0;
-                    if used > timeout.as_secs_f64() || std::time::Instant::now() > deadline {
+                    let wall = started.elapsed();
+                    if (used > timeout.as_secs_f64() && wall > timeout) || std::time::Instant::now() > deadline {
                         let wk = slot.take().unwrap();
                         wk.kill();
                         return Ran::TimedOut { mode, stage };
